@@ -293,8 +293,16 @@ func c18AlwaysSeals(c *Ctx) {
 			switch x := v.(type) {
 			case *ssa.MakeInterface:
 				if p, ok := x.X.Type().(*types.Pointer); ok {
-					if nt := an.NamedOf(p.Elem()); nt != nil && nt.Obj().Name() == "jencryptor" {
-						return true
+					// the sealing encryptor, by role: the kv type that holds the derived [32]byte key
+					// (jencryptor today)
+					if nt := an.NamedOf(p.Elem()); nt != nil && nt.Obj().Pkg() != nil && nt.Obj().Pkg().Path() == kvPkg {
+						if st, ok := nt.Underlying().(*types.Struct); ok {
+							for i := 0; i < st.NumFields(); i++ {
+								if st.Field(i).Type().String() == "[32]byte" {
+									return true
+								}
+							}
+						}
 					}
 				}
 				return false
